@@ -499,6 +499,8 @@ def body(chk, db, cfgname):
     r_idem = chk.rule("C09-R6", "prepare()/compute() are idempotent: the early-return level is the level the function establishes", "F1 pairing", 3)
     from checks.lehmann import check_status_guards
     check_status_guards(r_idem, db, cfgname, ("Pomerol::DensityMatrix", "Pomerol::EnsembleAverage"))
+    from checks.lehmann import check_copy_ctors_complete
+    check_copy_ctors_complete(r_idem, db, cfgname, ("Pomerol::EnsembleAverage",))
     chk.undecided.append("finiteness for extreme beta*bandwidth beyond the sign argument of R2; trace identities at the value level; normalisation to one up to rounding")
 def unbool(k):
     return k
